@@ -14,16 +14,28 @@ Proved on the parser model:
    message that fails (`loop_unfold`, `loop_acc`, `loop_acc_prefix`);
  * `printed_texts_independent`: the text-level statement `parse (t₁ ++ sep ++ t₂) = parse t₁ ++
    parse t₂` for texts in printed form (lexer half from Proofs/LexPrintedItems).
-`concat_independence_partial`: for texts in arbitrary spelling the one missing step is lexical —
-that the token stream of a concatenation is the first text's stream followed by the second's
-(locality of every scanner; building blocks in Proofs/LexLocal). It is decided on the real code by
-the concatenation suite (deep equality with each text parsed alone) and the model is compared on
-every concatenated text.
+* `texts_independent` (and `texts_independent_accepted`, `texts_independent_list`): the text-level
+   statement for texts in ANY spelling. `x` is any accepted text that ends with a line break, `b`
+   any text at all: `parse (x ++ b)` gives the messages of `x` followed by exactly what `parse b`
+   gives - the same messages, the same errors, the warnings of both (diagnostics compared by
+   their texts; their positions move with the text). It joins `tokens_independent` with the
+   locality of the lexer (Proofs/LexLocal, LexScan, LexConcat: on a text that ends with a line feed
+   every scanner has decided what it returns before it could look past that line feed -
+   `lexFrom_concat`), with `accepted_ends_msgEnd` (Proofs/ParserEnds: an accepted stream ends with a
+   message terminator, so the lexer is back in the header state) and with the fact that an accepted
+   text holds no lexing error (the error token ends the stream and is no terminator).
+Not covered by a theorem: a first text whose last byte is not a line break (joined "by nothing"
+directly behind the terminator, or ending in a comment that the second text would continue) - for
+printed forms `printed_texts_independent` covers it; in general it is decided on the real code by
+the concatenation suite (deep equality with each text parsed alone, every separator kind) and the
+model is compared on every concatenated text.
 -/
 import SecsModel.Model.Parser
 import SecsModel.Proofs.ParserNat
 import SecsModel.Proofs.LexPrintedItems
 import SecsModel.Proofs.ParserConcat
+import SecsModel.Proofs.LexConcat
+import SecsModel.Proofs.ParserEnds
 import SecsModel.Generated.Facts
 namespace Secs.C19
 open Secs Secs.Sml Secs.Lex
@@ -199,6 +211,142 @@ theorem tokens_independent (A B : List Tok) (e : Tok) (he : e.kind = .eof) (hA :
       | nil => simp
       | cons x xs => simp
 
+
+/-! ### independence for texts in any spelling (lexer locality + parser locality) -/
+
+def nc (t : Tok) : Bool := t.kind != .comment
+
+theorem parse_eq_lexFrom (ual : List Nat) (x : Bytes) : parse ual x = parseToks ((lexFrom ual .header x).filter nc) := rfl
+
+theorem eraseT_idem (t : Tok) : eraseT (eraseT t) = eraseT t := rfl
+
+theorem filter_eraseT (l : List Tok) : (l.filter nc).map eraseTok = (l.map eraseT).filter nc := by
+  induction l with
+  | nil => rfl
+  | cons t l ih =>
+    simp only [List.filter_cons, List.map_cons]
+    have : nc (eraseT t) = nc t := rfl
+    rw [this]
+    split
+    · simp only [List.map_cons, ih]; rfl
+    · exact ih
+
+/-- what is parsed depends on the token stream only up to positions -/
+theorem content_erased (l : List Tok) :
+    (parseToks (l.filter nc)).content = (parseToks ((l.map eraseT).filter nc)).content := by
+  apply positions_irrelevant
+  rw [filter_eraseT, filter_eraseT, List.map_map]
+  congr 1
+
+theorem content_done (o : Outcome) (ms : List Msg) (ws : List String) (h : o.content = some (ms, [], ws)) :
+    ∃ w, o = .done ms [] w ∧ w.map (·.kind) = ws := by
+  cases o with
+  | panic => simp [Outcome.content] at h
+  | done m e w =>
+    simp only [Outcome.content, Option.some.injEq, Prod.mk.injEq] at h
+    obtain ⟨h1, h2, h3⟩ := h
+    have : e = [] := by simpa using h2
+    subst this; subst h1
+    exact ⟨w, rfl, h3⟩
+
+/-- **Independence for texts in any spelling.** `x` is any accepted text that ends with a line
+break, `b` any text at all. Then parsing `x ++ b` gives the messages of `x` followed by exactly what
+parsing `b` alone gives: the same messages, the same errors, the warnings of both (diagnostics are
+compared by their texts; their positions move with the text). -/
+theorem texts_independent (ual : List Nat) (x b : Bytes) (hx : EndsLF x) (ms1 : List Msg) (ws1 : List String)
+    (h : (parse ual x).content = some (ms1, [], ws1)) :
+    (parse ual (x ++ b)).content =
+      match (parse ual b).content with
+      | none => none
+      | some (ms2, es, ws2) => if es.isEmpty then some (ms1 ++ ms2, [], ws1 ++ ws2) else some ([], es, ws1 ++ ws2) := by
+  have hx2 : (parse ual (x ++ b)).content = (parseToks (((lexFrom ual .header (x ++ b)).map eraseT).filter nc)).content := by
+    rw [parse_eq_lexFrom]; exact content_erased _
+  have hb2 : (parse ual b).content = (parseToks (((lexFrom ual .header b).map eraseT).filter nc)).content := by
+    rw [parse_eq_lexFrom]; exact content_erased _
+  rw [parse_eq_lexFrom, content_erased] at h
+  rw [hx2, hb2]
+  obtain ⟨w1, hP, hw1⟩ := content_done _ _ _ h
+  -- the stream of `x` holds no lexing error
+  have hnoerr : ∀ t ∈ (lexFrom ual .header x).map eraseT, t.kind ≠ .error := by
+    obtain ⟨ts, last, e1, e2, e3⟩ := lexFuel_shape ual (x.length + 1) .header ⟨x, 1, []⟩ (by simp)
+    have e1' : lexFrom ual .header x = ts ++ [last] := e1
+    rcases e3 with e3 | e3
+    · intro t ht
+      rw [e1'] at ht
+      simp only [List.map_append, List.map_cons, List.map_nil, List.mem_append, List.mem_map, List.mem_singleton] at ht
+      rcases ht with ⟨t0, ht0, rfl⟩ | rfl
+      · exact (e2 t0 ht0).2
+      · rw [eraseT_kind, e3]; decide
+    · exfalso
+      rw [e1'] at hP
+      have hk : nc (eraseT last) = true := by
+        show (last.kind != Kind.comment) = true
+        rw [e3]; decide
+      simp only [List.map_append, List.map_cons, List.map_nil, List.filter_append, List.filter_cons, hk, if_true, List.filter_nil] at hP
+      have hT : ∀ t ∈ (ts.map eraseT).filter nc ++ [eraseT last], t.kind ≠ .eof := by
+        intro t ht
+        rcases List.mem_append.mp ht with ht | ht
+        · obtain ⟨t0, ht0, rfl⟩ := List.mem_map.mp (List.mem_filter.mp ht).1
+          exact (e2 t0 ht0).1
+        · rw [List.mem_singleton.mp ht, eraseT_kind, e3]; decide
+      rcases accepted_ends_msgEnd _ hT ms1 w1 hP with hnil | ⟨pre, d, hd, hdk⟩
+      · simp at hnil
+      · have := List.append_inj' hd rfl
+        have hd2 : eraseT last = d := by simpa using this.2
+        rw [← hd2, eraseT_kind, e3] at hdk
+        cases hdk
+  obtain ⟨ts, i1, i2, i3⟩ := lexFrom_concat ual b x.length x .header (Nat.le_refl _) hx hnoerr
+  have hke : nc Lex.eofTok = true := by decide
+  have hA : ∀ t ∈ ts.filter nc, t.kind ≠ .eof := fun t ht => (i3 t (List.mem_filter.mp ht).1).1
+  rw [i1] at hP
+  simp only [List.filter_append, List.filter_cons, hke, if_true, List.filter_nil] at hP
+  -- the first text leaves the lexer in the header state
+  have hmode : modeOf .header ts = .header := by
+    rw [← modeOf_filter]
+    rcases accepted_ends_msgEnd_eof (ts.filter nc) Lex.eofTok rfl hA ms1 w1 hP with hnil | ⟨pre, d, hd, hdk⟩
+    · have : ts.filter (fun t => t.kind != .comment) = [] := hnil
+      rw [this]; rfl
+    · have : ts.filter (fun t => t.kind != .comment) = pre ++ [d] := hd
+      rw [this]; exact modeOf_ends_msgEnd _ _ _ hdk
+  rw [i2, hmode, List.filter_append]
+  rw [tokens_independent (ts.filter nc) _ Lex.eofTok rfl hA ms1 w1 hP]
+  cases parseToks (((lexFrom ual .header b).map eraseT).filter nc) with
+  | panic => rfl
+  | done ms2 errs w2 =>
+    simp only [Outcome.content]
+    cases errs with
+    | nil => simp [hw1]
+    | cons e es => simp [hw1]
+
+
+/-- both texts accepted: the concatenation is accepted and holds the messages of both, in order -/
+theorem texts_independent_accepted (ual : List Nat) (x b : Bytes) (hx : EndsLF x) (ms1 ms2 : List Msg) (ws1 ws2 : List String)
+    (h1 : (parse ual x).content = some (ms1, [], ws1)) (h2 : (parse ual b).content = some (ms2, [], ws2)) :
+    (parse ual (x ++ b)).content = some (ms1 ++ ms2, [], ws1 ++ ws2) := by
+  rw [texts_independent ual x b hx ms1 ws1 h1, h2]
+  rfl
+
+/-- any number of accepted texts, each ending with a line break: their concatenation is accepted
+and holds the messages of all of them, in order, each as parsed alone -/
+theorem texts_independent_list (ual : List Nat) : ∀ (texts : List (Bytes × List Msg × List String)),
+    (∀ t ∈ texts, EndsLF t.1 ∧ (parse ual t.1).content = some (t.2.1, [], t.2.2)) →
+    (parse ual (texts.map (·.1)).flatten).content = some ((texts.map (·.2.1)).flatten, [], (texts.map (·.2.2)).flatten) ∨ texts = []
+  | [], _ => Or.inr rfl
+  | t :: rest, h => by
+    left
+    obtain ⟨ht1, ht2⟩ := h t (by simp)
+    rcases texts_independent_list ual rest (fun u hu => h u (List.mem_cons_of_mem _ hu)) with ih | hnil
+    · simp only [List.map_cons, List.flatten_cons]
+      exact texts_independent_accepted ual t.1 _ ht1 _ _ _ _ ht2 ih
+    · subst hnil
+      simp only [List.map_cons, List.map_nil, List.flatten_cons, List.flatten_nil, List.append_nil]
+      exact ht2
+
+/-! non-vacuity (tests): a first text in free spelling - lower-case keywords, a comment, a size
+declaration over two lines, hexadecimal and exponent literals - meets the hypotheses -/
+def sampleText : Bytes := str "s1f1 w // first\n<l [ 2\n ] <u1 0x1f> <f4 1e3>>\n.\n"
+example : EndsLF sampleText := ⟨sampleText.dropLast, by decide +kernel⟩
+example : ((parse [] sampleText).content.map (fun r => (r.1.length, r.2.1))) = some (1, []) := by decide +kernel
 
 /-- tie to the source: the token channel is per call (capacity constant), no package state -/
 theorem facts_no_shared_state : Generated.pkgVars = [] ∧ Generated.tokenChanCap = 2 := by decide
